@@ -192,8 +192,9 @@ def str_matches(
     :param pattern: Regular expression pattern to use for matching
     """
     pattern = pattern.pattern if isinstance(pattern, re.Pattern) else pattern
-    if not pattern.startswith("^"):
-        pattern = f"^{pattern}"
+    # anchor the whole pattern (not only its first alternative) at the start
+    # of the string, like re.match / pandas.Series.str.match do
+    pattern = f"^(?:{pattern})"
     return data.lazyframe.select(
         pl.col(data.key).str.contains(pattern=pattern)
     )
